@@ -94,7 +94,8 @@ def check_tree(U, d, share, rec: Rec, light=False, route="direct"):
     rec.sample(case)
 
     def ikey(info):
-        return (id(info.node), id(info.parent), info.field.name, info.findex)
+        # total on whatever the library offers: something that is not a position (no field) gets a key no position has
+        return (id(info.node), id(info.parent), getattr(info.field, "name", None), info.findex)
 
     def mk(S, log):
         # the predicate is a callable OBJECT that is falsy in a boolean context (think of a recording predicate derived from
@@ -105,16 +106,22 @@ def check_tree(U, d, share, rec: Rec, light=False, route="direct"):
         rec.count("transitions")
         rec.count("traces")
         got = []
-        for info in gen:
-            got.append(ikey(info))
-            try:
-                v = getattr(info.parent, info.field.name)
-                at = v[info.findex] if info.findex is not None else v
-                ok = at is info.node and (info.findex is None) == (not isinstance(v, tuple))
-            except Exception:  # noqa: BLE001
-                ok = False
-            if not ok:
-                rec.violation(f"C05|{fn}|position-info", case, f"{fn}: yielded (node,parent,field,index) does not address the node")
+        try:
+            for info in gen:
+                got.append(ikey(info))
+                try:
+                    v = getattr(info.parent, info.field.name)
+                    at = v[info.findex] if info.findex is not None else v
+                    ok = at is info.node and (info.findex is None) == (not isinstance(v, tuple))
+                except Exception:  # noqa: BLE001
+                    ok = False
+                if not ok:
+                    rec.violation(f"C05|{fn}|position-info", case, f"{fn}: yielded (node,parent,field,index) does not address the node")
+        except Exception as e:  # noqa: BLE001
+            # the predicates of this harness are total on positions (node, parent, field, index): an exception here means the
+            # traversal offered something that is not a position, or failed by itself
+            rec.violation(f"C05|{fn}|raises", dict(case, prune=len(pr)), f"{fn}: the traversal raised {type(e).__name__}: {str(e)[:120]}")
+            return
         exp = [pkey[p] for p in exp_paths]
         if got != exp:
             rec.violation(f"C05|{fn}|sequence", dict(case, prune=len(pr)), f"{fn}: yielded positions differ from reference order",
@@ -141,6 +148,15 @@ def check_tree(U, d, share, rec: Rec, light=False, route="direct"):
     run("dfs-bu", root.dfs(bottom_up=True), R.post_order(U, d, nop, allp), frozenset(), None, None)
     run("bfs", root.bfs(), R.level_order(U, d, nop, allp), frozenset(), None, None)
 
+    # predicates that do not look at the position at all: "prune everything" (exactly the direct children are visited - the
+    # start node itself is never offered to a predicate), "keep nothing"
+    always, never = FalsyPredicate(lambda info: True), FalsyPredicate(lambda info: False)
+    everything = frozenset(keys)
+    run("dfs", root.dfs(prune=always), R.pre_order(U, d, allp, allp), everything, None, None)
+    run("dfs-bu", root.dfs(prune=always, bottom_up=True), R.post_order(U, d, allp, allp), everything, None, None)
+    run("bfs", root.bfs(prune=always), R.level_order(U, d, allp, allp), everything, None, None)
+    run("dfs", root.dfs(filter=never), [], frozenset(), None, None)
+    run("bfs", root.bfs(prune=always, filter=never), [], everything, None, None)
     # re-entrancy: two traversals of the same tree advanced alternately, an abandoned traversal before a complete one, and
     # complete inner traversals (of the yielded node and of the root) between the steps of an outer one
     if len(keys) >= 2 and route == "direct":
